@@ -322,6 +322,35 @@ def oracle_scaling():
     return None
 
 
+def oracle_generations():
+    """coefficients that are Variables declared before and after clear_variable_indices() carry the same indices but are different Variables: arithmetic
+    that brings them onto the same exponent row keeps both (s_old - gamma_new is not 0 * s_old), and substituting values commutes with it"""
+    import sageopt.coniclifts as cl
+    from sageopt.symbolic.signomials import Signomial
+    from sageopt.symbolic.polynomials import Polynomial
+    for cls in (Signomial, Polynomial):
+        cl.clear_variable_indices()
+        s_old = cl.Variable(shape=(3,), name='gen_s_old')
+        cl.clear_variable_indices()
+        g_new = cl.Variable(shape=(2,), name='gen_g_new')
+        alpha3 = np.array([[0, 0], [1, 0], [0, 2]])
+        S = cls(alpha3, s_old)                                     # s0 + s1 t^(1,0) + s2 t^(0,2)
+        h = cls(np.array([[0, 0], [1, 0]]), np.array([1.0, 2.0]))
+        G = cls(np.array([[0, 0], [0, 2]]), g_new)                 # g0 + g1 t^(0,2)
+        s_old.value = np.array([5.0, 7.0, 11.0])
+        g_new.value = np.array([2.0, 3.0])
+        for name, L, want in (('S - G', S - G, {(0, 0): 3.0, (1, 0): 7.0, (0, 2): 8.0}), ('S + G', S + G, {(0, 0): 7.0, (1, 0): 7.0, (0, 2): 14.0}),
+                              ('S - h * G', S - h * G, {(0, 0): 3.0, (1, 0): 3.0, (0, 2): 8.0, (1, 2): -6.0})):
+            got = {}
+            for row, ci in zip(np.asarray(L.alpha, dtype=float).tolist(), L.c):
+                got[tuple(int(round(t_)) for t_ in row)] = float(ci.value) if hasattr(ci, 'value') else float(ci)
+            if {k: v for k, v in got.items() if v != 0.0} != want:
+                return ('%s with the coefficients of S declared before clear_variable_indices() and those of G after it (equal indices): after assigning '
+                        's = (5, 7, 11), g = (2, 3) the coefficients are %s; substituting first gives %s' % (name, got, want))
+    cl.clear_variable_indices()
+    return None
+
+
 def oracle_operands():
     """(a) operands are values: using a symbolic-coefficient function in several later operations does not change it;
     (b) a coefficient vector that is a raw Variable with REPEATED exponent rows behaves like the consolidated function wherever it stands"""
@@ -395,6 +424,11 @@ def run(ctx):
     ctx.suites['operands'] = {'cases': 11, 'failure': why}
     if why:
         ctx.problem('oracle', 'property fails on the implementation: ' + why, inputs={'suite': 'operands'}, failing_input_found=True)
+    why = oracle_generations()
+    ctx.evaluations += 6
+    ctx.suites['generations_in_coefficients'] = {'cases': 6, 'failure': why}
+    if why:
+        ctx.problem('oracle', 'property fails on the implementation: ' + why, inputs={'suite': 'generations_in_coefficients'}, failing_input_found=True)
     why = oracle_scaling()
     ctx.evaluations += 3
     ctx.suites['scaling'] = {'cases': 3, 'failure': why}
